@@ -4,7 +4,7 @@ import lib, proxygen as pg, proxyflows as pf, proxycheck as pc
 
 class C07:
     id = "C07"
-    rule = ('random whole-proxy scenarios with the YAML no-received option true / false / omitted: requests from several loopback sources whose top Via names another host/port, rport absent / valueless / spoofed, received absent / spoofed, over UDP and over accepted TCP connections, relayed on all paths. Non-trivial = a request was relayed; distinct by content hash.')
+    rule = ('random whole-proxy scenarios with the YAML no-received option true / false / omitted: requests from several loopback sources whose top Via names another host/port, rport absent / valueless / spoofed, received absent / spoofed, over UDP, over accepted TCP connections and over connections the proxy itself opened to a TCP next hop, relayed on all paths. Non-trivial = a request was relayed; distinct by content hash.')
     trusted = ["UDP/TCP loopback delivery is synchronous and ordered per socket (the barrier argument of DESIGN 3.1); "
                "real DNS is not involved: hosts are IPv4 literals or names of the configured host table"]
     assumptions = []
@@ -30,7 +30,12 @@ class C07:
         return {"coverage": cov, "failures": failures}
 
     def opts(self, rng, i):
-        return {"no_received": [None, True, False][i % 3], "weights": {"svc": 5, "route": 3, "static": 3, "miss": 1, "resp": 2, "indialog": 1, "rawresp": 0}}
+        o = {"no_received": [None, True, False][i % 3], "weights": {"svc": 5, "route": 3, "static": 3, "miss": 1, "resp": 2, "indialog": 1, "rawresp": 0}}
+        if i % 4 == 1:
+            # connections the proxy opened itself (outbound to a TCP next hop) carry requests back: their
+            # server transports must have the listener's received-support too
+            o.update({"tcphops": True, "tcp": False, "routes": 1, "weights": {"outbound": 6, "svc": 2, "static": 1}})
+        return o
 
     def nontrivial(self, c, ni):
         return any(outs for outs, _ in ni)
